@@ -260,6 +260,9 @@ pub fn step(ex: &mut Exec, st: &mut L1State, op: &str, toks: &[&str]) -> Option<
                     rt.block_on(async { tokio::time::sleep(Duration::from_millis(15)).await });
                     let mut v: Vec<(String, String)> = vec![];
                     match r {
+                        // (with an expiring cache the number of storage operations of a run depends on timing: when operation k
+                        // did not occur in this run no fault was injected and there is nothing to judge)
+                        Ok(_) if !db.fired.load(Ordering::SeqCst) => {}
                         Ok(_) => v.push(("fault-swallowed".into(), "publish returned Ok although a storage operation failed".into())),
                         Err(_) => {
                             if mgr.is_transaction_active() {
